@@ -78,6 +78,14 @@ func (m *CPU) Context() *risc.Context {
 }
 
 func (m *CPU) Run(app risc.Application) (int, error) {
+	// An operand forwarded to an instruction that never ran (squashed, or in
+	// flight when the run ends) stays inside the parsed program, which other
+	// machines may run: leave none behind
+	defer func() {
+		for _, runner := range app.Instructions {
+			runner.Forward(risc.Forward{})
+		}
+	}()
 	defer func() {
 		log.Infou(m.ctx, "L3", m.memoryManagementUnit.l3.String())
 	}()
